@@ -9,6 +9,7 @@ import (
 	"path/filepath"
 	"strconv"
 	"strings"
+	"sync/atomic"
 	"syscall"
 	"unsafe"
 
@@ -238,6 +239,9 @@ func c03Schedule(t *rapid.T, ctl *vhook.Controller, maxSteps int, check func(ste
 					}
 				}
 			}
+			if th == nil {
+				th = run[0] // a thread added while the schedule was running (lowest priority)
+			}
 		} else {
 			th = run[rapid.IntRange(0, len(run)-1).Draw(t, "thread")]
 			burst = rapid.SampledFrom([]int{1, 1, 2, 3, 5, 8, 20, 60}).Draw(t, "burst")
@@ -296,3 +300,6 @@ func shortName(s string) string {
 	}
 	return s
 }
+
+// unsafePointer2 returns the address of a counter cell.
+func unsafePointer2(p *atomic.Uint64) unsafe.Pointer { return unsafe.Pointer(p) }
